@@ -56,7 +56,8 @@ def extract(config="default", repo=REPO, verbose=True):
     th = tree_hash(repo)
     key = "%s-%s" % (th, config)
     dest = os.path.join(CACHE, key)
-    lock = open(os.path.join(CACHE, ".lock"), "w")
+    # one lock per tree state: different trees (self-test variants) extract concurrently
+    lock = open(os.path.join(CACHE, ".lock-" + key), "w")
     fcntl.flock(lock, fcntl.LOCK_EX)
     try:
         if all(os.path.exists(os.path.join(dest, c + ".json")) for c in CRATES):
@@ -68,6 +69,7 @@ def extract(config="default", repo=REPO, verbose=True):
         t0 = time.time()
         tgt = tempfile.mkdtemp(prefix="zkv-target-")
         out = tempfile.mkdtemp(prefix="zkv-facts-")
+        warm = _warm_deps(config, tgt)
         try:
             env = dict(os.environ)
             env.update({
@@ -95,6 +97,8 @@ def extract(config="default", repo=REPO, verbose=True):
                 shutil.move(os.path.join(out, c + ".json"), os.path.join(tmpdest, c + ".json"))
             shutil.rmtree(dest, ignore_errors=True)
             os.rename(tmpdest, dest)
+            if not warm:
+                _save_deps(config, tgt)
         finally:
             shutil.rmtree(tgt, ignore_errors=True)
             shutil.rmtree(out, ignore_errors=True)
@@ -107,11 +111,66 @@ def extract(config="default", repo=REPO, verbose=True):
         lock.close()
 
 
+def _strip_members(tgt):
+    """Remove every artefact of the workspace's own crates from a target directory, so that cargo must
+    recompile them (through the driver) from the tree being analysed; third-party dependencies stay."""
+    stems = tuple(c for c in CRATES) + tuple(c.replace("_", "-") for c in CRATES)
+    for root, dirs, files in os.walk(tgt):
+        for d in list(dirs):
+            if d == "incremental" or d.startswith(stems):
+                shutil.rmtree(os.path.join(root, d), ignore_errors=True)
+                dirs.remove(d)
+        for f in files:
+            if f.startswith(stems) or f.startswith(tuple("lib" + c for c in CRATES)):
+                try:
+                    os.unlink(os.path.join(root, f))
+                except OSError:
+                    pass
+
+
+def _deps_dir(config):
+    return os.path.join(CACHE, "deps-target-" + config)
+
+
+def _warm_deps(config, tgt):
+    """Pre-populate a fresh target directory with the compiled third-party dependencies of an earlier
+    extraction (never with workspace crates: those are always recompiled from the current tree)."""
+    d = _deps_dir(config)
+    if os.environ.get("ZKV_COLD") or not os.path.isdir(d):
+        return False
+    r = subprocess.run(["cp", "-a", d + "/.", tgt + "/"], capture_output=True)
+    if r.returncode != 0:
+        shutil.rmtree(tgt, ignore_errors=True)
+        os.makedirs(tgt)
+        return False
+    _strip_members(tgt)
+    return True
+
+
+def _save_deps(config, tgt):
+    d = _deps_dir(config)
+    glock = open(os.path.join(CACHE, ".lock-deps"), "w")
+    fcntl.flock(glock, fcntl.LOCK_EX)
+    try:
+        if os.path.isdir(d):
+            return
+        tmp = d + ".tmp%d" % os.getpid()
+        shutil.rmtree(tmp, ignore_errors=True)
+        if subprocess.run(["cp", "-a", tgt, tmp], capture_output=True).returncode == 0:
+            _strip_members(tmp)
+            os.rename(tmp, d)
+        else:
+            shutil.rmtree(tmp, ignore_errors=True)
+    finally:
+        fcntl.flock(glock, fcntl.LOCK_UN)
+        glock.close()
+
+
 def _prune(keep, limit=64):
     ents = []
     for n in os.listdir(CACHE):
         p = os.path.join(CACHE, n)
-        if os.path.isdir(p) and n != keep and not n.startswith("fixture") and not n.startswith("witness"):
+        if os.path.isdir(p) and n != keep and not n.startswith("fixture") and not n.startswith("witness") and not n.startswith("deps-target"):
             ents.append((os.path.getmtime(p), p))
     ents.sort()
     for _, p in ents[:-limit] if len(ents) > limit else []:
